@@ -62,6 +62,9 @@ def _is_logging_call(node):
         v = f.value
         if isinstance(v, ast.Call) and isinstance(v.func, ast.Attribute) and v.func.attr == 'getLogger':
             return 'logging call'
+    if isinstance(f, ast.Attribute) and f.attr in ('debug', 'info', 'warning', 'error') and isinstance(f.value, ast.Name) \
+            and f.value.id == 'logging':
+        return 'logging call'
     if isinstance(f, ast.Attribute) and f.attr == 'warn' and isinstance(f.value, ast.Name) and f.value.id == 'warnings':
         return 'warnings.warn'
     if isinstance(f, ast.Name) and f.id == 'warn':
